@@ -476,3 +476,29 @@ Proof.
   - unfold run. rewrite E. destruct (c_help c); [discriminate|]. destruct (c_version c); [discriminate|].
     destruct (c_arg c) as [| |[| |g d l]]; try discriminate. destruct (snd (generate _ _ _ _ _ _)); discriminate.
 Qed.
+
+(* ---- the package directory is made by this run: nothing is ever created inside a directory (or through a
+        link) that existed before, apart from the one new entry <name> in <out> ---- *)
+Lemma prepare_existing P s out pkg n :
+  p_mkdir_all P = false -> lookup s (join out pkg) = Some n -> prepare P s out pkg = (s, false).
+Proof.
+  intros Hall He. unfold prepare, mkdir. rewrite He, Hall.
+  destruct (negb (out_ok P s out)); [reflexivity|].
+  destruct (p_valid_before_mkdir P).
+  - destruct (is_id_valid P pkg); [destruct n; reflexivity | reflexivity].
+  - destruct n; reflexivity.
+Qed.
+
+Theorem package_directory_is_new P c s q :
+  p_mkdir_all P = false ->
+  lookup (r_fs (run P c s)) q <> lookup s q ->
+  exists g d l, c_arg c = Readable (PAccepted g d l) /\ lookup s (join (c_out c) (package_name P c g)) = None.
+Proof.
+  intros Hall. unfold run. destruct (c_flag_error c); [intros H; exfalso; apply H; reflexivity|].
+  destruct (c_help c); [intros H; exfalso; apply H; reflexivity|].
+  destruct (c_version c); [intros H; exfalso; apply H; reflexivity|].
+  destruct (c_arg c) as [| |[| |g d l]]; try (intros H; exfalso; apply H; reflexivity).
+  intros H. exists g, d, l. split; [reflexivity|].
+  destruct (lookup s (join (c_out c) (package_name P c g))) as [n|] eqn:E; [|reflexivity].
+  exfalso. apply H. unfold generate. rewrite (prepare_existing P s (c_out c) (package_name P c g) n Hall E). reflexivity.
+Qed.
